@@ -189,3 +189,60 @@ def preceding_guards(node, func):
             break
         child, p = p, getattr(p, "_parent", None)
     return out
+
+
+def none_test(test):
+    """(text of E, True if the test holds when E is not None) for `E is None`, `E is not None`, `not (..)`, else None"""
+    if isinstance(test, ast.UnaryOp) and isinstance(test.op, ast.Not):
+        r = none_test(test.operand)
+        return None if r is None else (r[0], not r[1])
+    if (
+        isinstance(test, ast.Compare)
+        and len(test.ops) == 1
+        and isinstance(test.comparators[0], ast.Constant)
+        and test.comparators[0].value is None
+        and isinstance(test.ops[0], (ast.Is, ast.IsNot, ast.Eq, ast.NotEq))
+    ):
+        return norm(test.left), isinstance(test.ops[0], (ast.IsNot, ast.NotEq))
+    return None
+
+
+def arms(node, test_pred):
+    """(arm taken when test_pred's condition holds, other arm) of an If / IfExp whose test is `C` or `not C` /
+    the negated comparison, where test_pred(C_text_or_node) recognises the positive condition; else None.
+    test_pred receives the test node and returns True (positive form), False (negated form) or None."""
+    t = node.test
+    pol = test_pred(t)
+    if pol is None and isinstance(t, ast.UnaryOp) and isinstance(t.op, ast.Not):
+        p2 = test_pred(t.operand)
+        pol = None if p2 is None else not p2
+    if pol is None:
+        return None
+    return (node.body, node.orelse) if pol else (node.orelse, node.body)
+
+
+def effective_body(func):
+    """statements of a function body that can affect its result: without docstrings, `pass`, asserts and assignments
+    to a plain name that is only ever read by asserts (debug residue)"""
+    body = list(func.body)
+    in_assert = {id(x) for st in ast.walk(func) if isinstance(st, ast.Assert) for x in ast.walk(st)}
+    loads = {}
+    for n in ast.walk(func):
+        if isinstance(n, ast.Name) and isinstance(n.ctx, ast.Load) and id(n) not in in_assert:
+            loads[n.id] = loads.get(n.id, 0) + 1
+    out = []
+    for st in body:
+        if isinstance(st, ast.Expr) and isinstance(st.value, ast.Constant):
+            continue
+        if isinstance(st, (ast.Pass, ast.Assert)):
+            continue
+        if (
+            isinstance(st, ast.Assign)
+            and len(st.targets) == 1
+            and isinstance(st.targets[0], ast.Name)
+            and not loads.get(st.targets[0].id)
+            and isinstance(st.value, (ast.Constant, ast.Name))
+        ):
+            continue
+        out.append(st)
+    return out
